@@ -8,7 +8,8 @@ from cpverif.props import c04
 
 LEVEL = "exploration"
 RULE = (
-    "tables as in C04 (accepted and rejected cells, ragged rows, duplicates under IsUnique, headers) read three times - "
+    "tables as in C04 (accepted and rejected cells, ragged rows, duplicates under IsUnique, headers; 60% of the CIDs with a DistinctCount check that "
+    "may fail at the end of the data or on a part of it) read three times, alternately through Reader.rows() with an explicit close() and through cutplace.rows() - "
     "on_error = yield, continue, raise - on freshly loaded CIDs from six storages; relational oracle: continue == accepted "
     "rows of yield, raise == prefix before the first rejection + that same error (type and text), yielded errors keep "
     "their location after the iteration moved on, accepted + rejected == number of data rows; each also compared with "
@@ -18,7 +19,7 @@ RULE = (
     "DataFormatError, in every mode. A case is (CID, table, storage, fault) over the three modes, distinct by digest, "
     "non-trivial with at least one rejection or a container fault."
 )
-ASSUMPTIONS = ["workloads use only checks that cannot fail at the end of data, so 'raises that same error' is judged on every case"]
+ASSUMPTIONS = ["an exception that ends a complete yield/continue pass through cutplace.rows() is the end-of-data verdict of a check and has to be the same in both modes"]
 MODES = ["yield", "continue", "raise"]
 
 
@@ -31,6 +32,9 @@ def run_modes(ctx, model, make_src, case, expected, fault=None):
     """Reads the source once per mode on fresh CIDs and applies the relational + model oracles."""
     from cutplace import errors
 
+    api = case.get("api", "reader")
+    reader_function = gen.read_with_rows if api == "rows" else gen.read_with_reader
+
     observations = {}
     for mode in MODES:
         try:
@@ -41,7 +45,7 @@ def run_modes(ctx, model, make_src, case, expected, fault=None):
         source = make_src()
         ctx.count("reads.%s" % mode)
         try:
-            observations[mode] = gen.read_with_reader(cid, source, mode=mode)
+            observations[mode] = reader_function(cid, source, mode=mode)
         except OSError as error:
             if fault and fault["kind"] in ("archive-truncated", "content-xml-cut"):
                 ctx.unjudged("damaged archive reported as OSError (environment)")
@@ -90,13 +94,29 @@ def run_modes(ctx, model, make_src, case, expected, fault=None):
             return
         ctx.count("raise-vs-yield.judged")
     elif fault is None:
-        if r.raised is not None or [i[1] for i in r.items] != y_rows:
+        same_end = api == "rows" and r.raised is not None and y.raised is not None and type(r.raised) is type(y.raised) and str(r.raised) == str(y.raised)
+        if (r.raised is not None and not same_end) or [i[1] for i in r.items] != y_rows:
             ctx.violation("C06:raise-differs-without-rejection", case, "raise mode differs from yield mode although nothing was rejected",
                           expected=y_rows, observed=[gen.describe_items(r.items), r.raised])
             return
     if fault is None:
         # ---- complete pass: conservation + model
-        for mode, obs in (("yield", y), ("continue", c)):
+        end_y = y.end_error if api == "reader" else y.raised
+        end_c = c.end_error if api == "reader" else c.raised
+        if (end_y is None) != (end_c is None) or (end_y is not None and (type(end_y) is not type(end_c) or str(end_y) != str(end_c))):
+            ctx.violation("C06:end-verdict-differs", case, "yield and continue mode end the same data differently", expected=gen.snapshot(end_y) if end_y else None,
+                          observed=gen.snapshot(end_c) if end_c else None)
+            return
+        if api == "rows":
+            # the counters are not available through cutplace.rows(); an exception at the end must be the verdict of a check
+            for mode, obs in (("yield", y), ("continue", c)):
+                ctx.count("rows-api.complete-passes")
+                if obs.raised is not None and not isinstance(obs.raised, errors.CheckError):
+                    ctx.violation("C06:incomplete-pass", dict(case, mode=mode), "a well-formed container was not read completely", observed=obs.raised)
+                    return
+                if obs.raised is not None:
+                    ctx.count("rows-api.failed-at-end")
+        for mode, obs in (("yield", y), ("continue", c)) if api == "reader" else ():
             ctx.count("conservation.judged")
             n_data = max(0, len(expected["raw"]) - model.header)
             if obs.raised is not None or not obs.completed:
@@ -129,6 +149,9 @@ def run_modes(ctx, model, make_src, case, expected, fault=None):
                               expected="DataFormatError", observed=gen.describe_items(obs.items))
                 return
             if not isinstance(obs.raised, errors.DataFormatError):
+                if fault.get("may_be_benign") and isinstance(obs.raised, errors.CheckError) and (mode != "raise" or first_err is None):
+                    ctx.unjudged("corrupted container that still parses")  # ... and fails a check at the end of the data
+                    continue
                 if mode == "raise" and first_err is not None and isinstance(obs.raised, errors.DataError):
                     continue  # a row rejection before the fault position surfaced first
                 ctx.violation("C06:fault-wrong-error:%s" % fault["kind"], dict(case, mode=mode), "malformed container ended in another error than DataFormatError",
@@ -148,12 +171,24 @@ def run_modes(ctx, model, make_src, case, expected, fault=None):
                 return
 
 
+def add_distinct(rng, model):
+    """A check that can fail at the end of the data - and that would fail on a part of the data although it holds on the
+    whole, or the other way round."""
+    strip_distinct(model)
+    f = rng.choice(model.fields)["name"]
+    position = rng.choice([0, len(model.checks)])
+    model.checks.insert(position, {"desc": "dist", "type": "DistinctCount", "field": f, "op": rng.choice(["<", "<=", "==", "!=", ">=", ">"]), "n": rng.randint(0, 4)})
+
+
 def clean_case(ctx, index):
     rng = ctx.rng("case", index)
     store = gen.STORAGES[index % len(gen.STORAGES)]
     model, table = c04.gen_case(rng, store)
     strip_distinct(model)
-    case = {"cid": model.to_json(), "table": table, "storage": store, "fault": None}
+    api = "rows" if (index // len(gen.STORAGES)) % 2 else "reader"
+    if rng.random() < 0.6:
+        add_distinct(rng, model)
+    case = {"cid": model.to_json(), "table": table, "storage": store, "fault": None, "api": api}
     check_clean(ctx, model, table, store, case)
 
 
@@ -183,6 +218,9 @@ def fault_cases(ctx, index):
     store = ["delimited-file", "fixed-file", "ods", "xlsx", "delimited-stream", "fixed-stream"][index % 6]
     model, table = c04.gen_case(rng, store)
     strip_distinct(model)
+    model.fault_api = "rows" if (index // 6) % 2 else "reader"
+    if rng.random() < 0.6:
+        add_distinct(rng, model)
     kind = gen.KIND_OF_STORAGE[store]
     if kind == "delimited":
         table = [r for r in table if r != []] or [["a"] * len(model.fields)]
@@ -254,7 +292,7 @@ def fault_cases(ctx, index):
 
 
 def check_fault_text(ctx, model, store, text, prefix_table, fault):
-    case = {"cid": model.to_json(), "storage": store, "text": text, "fault": fault}
+    case = {"cid": model.to_json(), "storage": store, "text": text, "fault": fault, "api": getattr(model, "fault_api", "reader")}
     ctx.case(case, True)
     kind = gen.KIND_OF_STORAGE[store]
     paths = []
@@ -280,7 +318,7 @@ def check_fault_bytes(ctx, model, store, data, prefix_table, fault, encoding):
     import base64
 
     case = {"cid": model.to_json(), "storage": store, "bytes_b64": base64.b64encode(data).decode("ascii") if len(data) < 6000 else None,
-            "bytes_len": len(data), "fault": fault}
+            "bytes_len": len(data), "fault": fault, "api": getattr(model, "fault_api", "reader")}
     if encoding:
         model = RM.CidModel.from_json(model.to_json())
         model.encoding = encoding
